@@ -406,7 +406,10 @@ def unpem(pem):
             if l and not l.startswith(b("-----"))
         ]
     )
-    return base64.b64decode(d)
+    try:
+        return base64.b64decode(d)
+    except (binascii.Error, TypeError, ValueError) as e:
+        raise UnexpectedDER("Invalid base64 encoding of PEM body: %s" % e)
 
 
 def topem(der, name):
